@@ -26,18 +26,34 @@ class FS:
             raise Crash(what)
 
 class WFile:
+    """buffered file: python-level writes accumulate; one FS event per flush at close (torn = half)"""
     def __init__(self, fs, f, name):
         self.fs, self.f, self.name = fs, f, name
+        self.buf = None
     def write(self, b):
+        self.buf = b if self.buf is None else self.buf + b
+        return len(b)
+    def _flush(self):
+        if self.buf is None:
+            return
+        b, self.buf = self.buf, None
         try:
-            self.fs.tick(("write", self.name))
+            self.fs.tick(("flush", self.name))
         except Crash:
             self.f.write(b[: len(b) // 2]); self.f.flush()
             raise
-        return self.f.write(b)
+        self.f.write(b)
+    def close(self):
+        try:
+            self._flush()
+        finally:
+            self.f.close()
     def __enter__(self): return self
     def __exit__(self, *a):
-        self.f.close()
+        if self.fs.dead:
+            self.f.close()
+            return False
+        self.close()
         return False
     def __getattr__(self, k): return getattr(self.f, k)
 
